@@ -20,8 +20,29 @@ RULE = ("elements of 1-6 channels (int and str ids) mixing blueprints and raw ar
 TRUSTED_EXTRA = ["numpy.allclose semantics |a-b| <= atol + rtol*|b| with rtol=1e-5 (modelled)"]
 
 
+def long_case(g, ci):
+    """two channels of at least 100 000 points that differ by one, two or three samples (or not at all): a difference of
+    one sample is a difference whatever the length.  Only validation and the queries run; nothing this long is forged."""
+    r = g.r
+    SR = r.choice([1e6, 1e9, 2.4e9, 100])
+    N = r.choice([100000, 100000, 250000, 1000000])
+    d = r.choice([1, 1, 2, 3, 0])
+    ops = [{"op": "el.new", "id": "e"}]
+    for i, n in enumerate((N, N + d)):
+        bid = g.fresh("b")
+        ops += [{"op": "bp.new", "id": bid},
+                {"op": "bp.insert", "id": bid, "pos": -1, "fn": "ramp", "args": [enc(0), enc(1)], "dur": enc(n / SR), "name": None},
+                {"op": "bp.setSR", "id": bid, "SR": enc(SR)}, {"op": "el.addBP", "id": "e", "ch": i + 1, "bp": bid}]
+    ops += [{"op": "el.validate", "id": "e"}, {"op": "el.points", "id": "e"}, {"op": "el.SR", "id": "e"},
+            {"op": "sq.new", "id": "s"}, {"op": "sq.setSR", "id": "s", "v": enc(SR)},
+            {"op": "sq.addElement", "id": "s", "pos": 1, "el": "e"}, {"op": "sq.check", "id": "s"}]
+    return ops
+
+
 def case(g, tier, ci):
     r = g.r
+    if ci % 40 == 17:
+        return long_case(g, ci)
     sg = SeqGen(g)
     SR = r.choice([1, 2, 10, 100, 1e3, 2.5, 1e6, 1e9, 12345.678, 1.2e9, 2.4e9])      # the last two: a period that is no whole number of ns
     N = r.randint(4, 40 if tier == "quick" else 300)
@@ -50,6 +71,9 @@ def case(g, tier, ci):
         ops.append({"op": "el.new", "id": "x"})
         ops.append({"op": "el.addArray", "id": "x", "ch": 1, "wfm": [q(dyadic(r)) for _ in range(N)], "SR": enc(SR),
                     "kw": [["m1", [0] * N], ["m2", [0] * (N + r.choice([-1, 1, 3]))]], "_errclass": True})
+    if ci % 6 == 2:
+        # a refused addBluePrint (an empty blueprint) on an occupied channel changes nothing
+        ops += [{"op": "bp.new", "id": "empty"}, {"op": "el.addBP", "id": "e", "ch": r.choice(chans), "bp": "empty"}]
     if r.random() < 0.35 and not sr_dev:      # (with one sample rate only: the new durations are whole samples, no ties)
         # a query first (it caches SR/duration), then an edit that may make the channels unequal, then everything again
         ops.append({"op": r.choice(["el.validate", "el.points", "el.duration", "el.SR"]), "id": "e"})
